@@ -39,7 +39,7 @@ func streamCodec(r *simrt.Rand, p *Plan) {
 
 // genStreamClient scripts one stream and the client goroutine that drives it.
 func genStreamClient(r *simrt.Rand, p *Plan, conn int, big *int) {
-	sp := StreamPlan{Conn: conn}
+	sp := StreamPlan{Conn: conn, RBuf: []int{0, 0, 3, 17, 100, 5000, 70000}[r.Intn(7)]}
 	switch r.Intn(4) {
 	case 0: // client writes first, server echoes
 		sp.Echo = true
@@ -200,7 +200,7 @@ func genC10(r *simrt.Rand, tier string, idx uint64) *Plan {
 	small := -1
 	ns := 1 + r.Intn(3)
 	for k := 0; k < ns; k++ {
-		sp := StreamPlan{Conn: 0, Echo: true, Push: r.Intn(2)}
+		sp := StreamPlan{Conn: 0, Echo: true, Push: r.Intn(2), RBuf: []int{0, 0, 17, 5000}[r.Intn(4)]}
 		nw := 1 + r.Intn(3)
 		for i := 0; i < nw; i++ {
 			sp.Sizes = append(sp.Sizes, 1+genSize(r, &small))
